@@ -3,9 +3,11 @@
 -/
 import StVerif.Model.Compare
 import StVerif.Lemmas.Search
+import StVerif.Lemmas.CompareSpec
 
 namespace StVerif.Lemmas.Compare
 open StVerif StVerif.Search StVerif.Compare StVerif.Spec.Search StVerif.Lemmas.Search
+open StVerif.Spec.Compare StVerif.Lemmas.CompareSpec
 
 theorem schar_eq_iff (x y : Nat) (hx : x < 256) (hy : y < 256) : schar x = schar y ↔ x = y := by
   unfold schar toSigned
@@ -82,5 +84,84 @@ theorem compareCi3_eq_zero_iff (a b : List Nat) (h : a.length = b.length) (ha : 
       · rw [if_pos hc]
         have : lower x ≠ lower y := fun e => hc (inj.2 e)
         simp [this]; omega
+
+/-! ### the model's prefix comparisons are the Spec's three-way comparison on equally long texts -/
+
+theorem traitsCompare_eq_lexSign (e : Elem) (a b : List Nat) (h : a.length = b.length) :
+    traitsCompare e a b = lexSign e.key a b := by
+  induction a generalizing b with
+  | nil => cases b with
+    | nil => rfl
+    | cons y ys => simp at h
+  | cons x xs ih =>
+    cases b with
+    | nil => simp at h
+    | cons y ys =>
+      simp only [List.length_cons, Nat.add_right_cancel_iff] at h
+      unfold traitsCompare lexSign
+      rw [ih ys h]
+
+/-- the order `compare_ci` sorts by: the folded byte as a signed char -/
+def ciKey (x : Nat) : Int := schar (lower x)
+
+theorem compareCi3_sign (a b : List Nat) (h : a.length = b.length) :
+    Int.sign (compareCi3 a b) = lexSign ciKey a b := by
+  induction a generalizing b with
+  | nil => cases b with
+    | nil => rfl
+    | cons y ys => simp at h
+  | cons x xs ih =>
+    cases b with
+    | nil => simp at h
+    | cons y ys =>
+      simp only [List.length_cons, Nat.add_right_cancel_iff] at h
+      unfold compareCi3 lexSign
+      simp only []
+      rw [show schar (lower x) = ciKey x from rfl, show schar (lower y) = ciKey y from rfl]
+      by_cases h1 : ciKey x < ciKey y
+      · have hne : ciKey x ≠ ciKey y := by omega
+        rw [if_pos hne, if_pos h1]
+        exact Int.sign_eq_neg_one_of_neg (by omega)
+      · by_cases h2 : ciKey y < ciKey x
+        · have hne : ciKey x ≠ ciKey y := by omega
+          rw [if_pos hne, if_neg h1, if_pos h2]
+          exact Int.sign_eq_one_of_pos (by omega)
+        · have he : ¬ (ciKey x ≠ ciKey y) := by omega
+          rw [if_neg he, if_neg h1, if_neg h2]
+          exact ih ys h
+
+theorem sign_lexSign (key : Nat → Int) (a b : List Nat) : Int.sign (lexSign key a b) = lexSign key a b := by
+  rcases lexSign_range key a b with h | h | h <;> rw [h] <;> rfl
+
+theorem sign_lengthOrder (la lb : Nat) : Int.sign (lengthOrder la lb) = lengthOrder la lb := by
+  unfold lengthOrder; split
+  · rfl
+  · split <;> rfl
+
+theorem take_min_length (a b : List Nat) :
+    (a.take (min a.length b.length)).length = (b.take (min a.length b.length)).length := by
+  simp only [List.length_take]; omega
+
+/-- the narrowed size difference has the sign of the size comparison as long as the difference fits an `int` -/
+theorem sizeDiffNarrowed_sign (ls rs : Nat) (h1 : ls < 2 ^ 64) (h2 : rs < 2 ^ 64)
+    (hd : (ls : Int) - rs < 2 ^ 31 ∧ (rs : Int) - ls ≤ 2 ^ 31) :
+    Int.sign (sizeDiffNarrowed ls rs) = lengthOrder ls rs := by
+  unfold sizeDiffNarrowed wrap64 toI32 lengthOrder
+  by_cases hlt : ls < rs
+  · rw [if_pos hlt]
+    have e : (((ls : Int) - rs) % (2 ^ 64 : Int)).toNat = 2 ^ 64 - (rs - ls) := by omega
+    rw [e]
+    apply Int.sign_eq_neg_one_of_neg
+    split <;> omega
+  · rw [if_neg hlt]
+    have e : (((ls : Int) - rs) % (2 ^ 64 : Int)).toNat = ls - rs := by omega
+    rw [e]
+    by_cases hgt : rs < ls
+    · rw [if_pos hgt]
+      apply Int.sign_eq_one_of_pos
+      split <;> omega
+    · rw [if_neg hgt]
+      have : ls - rs = 0 := by omega
+      rw [this]; rfl
 
 end StVerif.Lemmas.Compare
